@@ -787,3 +787,4 @@ M('sweep-mq-poll-sense-inverted', ['C08'], MQ, "        if self.sender is not No
 M('sweep-mq-destroy-skips-existing-sender', ['C08'], MQ, "        if self.sender:\n            self.sender.destroy()", "        if not self.sender:\n            self.sender.destroy()", ['C08.R11'])
 M('sweep-mq-recv-empty-with-sources', ['C03'], MQ, "        if self.receiver is None:\n            return {}", "        if self.receiver is not None:\n            return {}", ['C03.R18'])
 M('sweep-mq-recv-none-when-data-came', ['C03'], MQ, "timeout)) is None:\n            return None\n\n        topicmsgs, self.send_state = res", "timeout)) is not None:\n            return None\n\n        topicmsgs, self.send_state = res", ['C03.R18'])
+M('sweep-filter-send-wait-gives-up-at-once', ['C04'], F, "            if (outputs_timeout := outputs_timeout - POLL_TIMEOUT_MS) <= 0:\n                break\n\n        if (exit_after_t", "            if not (outputs_timeout := outputs_timeout - POLL_TIMEOUT_MS) <= 0:\n                break\n\n        if (exit_after_t", ['C04.R12'])
